@@ -147,23 +147,11 @@ func printfRule(w *World, r *Result, rel string) int {
 				}
 			}
 			if formats == nil {
-				// a local every definition of which is a constant string: one of those constants
-				if id := identOf(call.Args[first]); id != nil {
-					if host := funcContaining(call); host != nil && paramIndex(host, objOf(info, id)) < 0 {
-						ds := defsIn(info, host.Decl, objOf(info, id))
-						all := len(ds) > 0
-						var fs []string
-						for _, d := range ds {
-							dtv := info.Types[d]
-							if dtv.Value == nil || dtv.Value.Kind() != constant.String {
-								all = false
-								break
-							}
-							fs = append(fs, constant.StringVal(dtv.Value))
-						}
-						if all {
-							formats = fs
-						}
+				// constants, locals every definition of which is a constant, and concatenations of those: one of the
+				// finitely many constant formats
+				if host := funcContaining(call); host != nil {
+					if fs, ok := constStringAlts(info, host, call.Args[first], 0); ok {
+						formats = fs
 					}
 				}
 			}
@@ -843,4 +831,52 @@ func checkArrayConverterPredicate(w *World, r *Result) {
 	if n < 2 {
 		Undecided("AGR-C01g: generateArrayConverter has %d returns", n)
 	}
+}
+
+// constStringAlts: the finitely many constant strings e can evaluate to: a constant, a local (not a parameter) every
+// definition of which is such an expression, or a concatenation of such expressions.
+func constStringAlts(info *types.Info, host *FuncInfo, e ast.Expr, depth int) ([]string, bool) {
+	if depth > 4 {
+		return nil, false
+	}
+	if tv := info.Types[e]; tv.Value != nil && tv.Value.Kind() == constant.String {
+		return []string{constant.StringVal(tv.Value)}, true
+	}
+	switch v := ast.Unparen(e).(type) {
+	case *ast.Ident:
+		obj := objOf(info, v)
+		if lv, ok := obj.(*types.Var); !ok || lv.IsField() || paramIndex(host, obj) >= 0 {
+			return nil, false
+		}
+		ds := defsIn(info, host.Decl, obj)
+		if len(ds) == 0 {
+			return nil, false
+		}
+		var out []string
+		for _, d := range ds {
+			alts, ok := constStringAlts(info, host, d, depth+1)
+			if !ok {
+				return nil, false
+			}
+			out = append(out, alts...)
+		}
+		return out, true
+	case *ast.BinaryExpr:
+		if v.Op != token.ADD {
+			return nil, false
+		}
+		l, ok1 := constStringAlts(info, host, v.X, depth+1)
+		r, ok2 := constStringAlts(info, host, v.Y, depth+1)
+		if !ok1 || !ok2 || len(l)*len(r) > 64 {
+			return nil, false
+		}
+		var out []string
+		for _, a := range l {
+			for _, b := range r {
+				out = append(out, a+b)
+			}
+		}
+		return out, true
+	}
+	return nil, false
 }
